@@ -64,6 +64,29 @@ def tainted_locals(b):
     return t
 
 
+def origin_places(b, local, defs=None, depth=0):
+    """places (local, projection) a temporary is a plain copy/cast of (field-sensitive): `_5 = copy (_2.len)`, `_6 = _5 as usize`"""
+    if defs is None:
+        defs = defaultdict(list)
+        for i, blk in enumerate(b.blocks):
+            for s in blk["s"]:
+                defs[s["d"][0]].append(s)
+    out = set()
+    if depth > 6:
+        return out
+    ds = defs.get(local, [])
+    if len(ds) != 1:
+        return out
+    s = ds[0]
+    if s.get("rk") in ("use", "cast") and s.get("src") and isinstance(s["src"][0], list):
+        o = s["src"][0]
+        if o[1]:
+            out.add((o[0], o[1]))
+        else:
+            out |= origin_places(b, o[0], defs, depth + 1)
+    return out
+
+
 def compared_locals(b, taint):
     """for each block: set of tainted locals that have been tested by a comparison (switch on a bin Lt/Le/Gt/Ge/Eq/Ne result,
     or checked_* .is_none/None branch) on every path to that block.  Approximated by dominance: a comparison block
@@ -81,7 +104,15 @@ def compared_locals(b, taint):
         for bi, s in defs.get(on, []):
             if s.get("rk") == "bin" and s.get("op") in ("Lt", "Le", "Gt", "Ge", "Eq", "Ne"):
                 ls = {o[0] for o in s["src"] if isinstance(o, list)}
-                comps.append((i, ls))
+                # a comparison with the constant 0 says nothing about an upper bound
+                if any(isinstance(o, dict) and str(o.get("c", "")).split("_")[0] in ("0", "const 0") for o in s["src"]):
+                    pl = set()
+                else:
+                    pl = set()
+                    for o in s["src"]:
+                        if isinstance(o, list):
+                            pl |= origin_places(b, o[0])
+                comps.append((i, ls, pl))
     return comps
 
 
@@ -214,9 +245,15 @@ def run(F, rep, tier):
             feeding = set()
             for l in locs:
                 feeding |= sl.locals_feeding([l, ""]) | {l}
-            for ci, cl in comps:
-                if cl & feeding & taint and b.dominates(ci, blk_i) and ci != blk_i:
-                    return True
+            places = set()
+            for l in feeding:
+                places |= origin_places(b, l)
+            for ci, cl, pl in comps:
+                if b.dominates(ci, blk_i) and ci != blk_i:
+                    if cl & feeding & taint:
+                        return True
+                    if pl & places and any(p_[0] in taint for p_ in pl & places):
+                        return True      # the same field of the same file structure was compared (through another temporary)
             return False
         for i, t in b.calls():
             cal = t.get("f") or t["tf"]
